@@ -329,6 +329,33 @@ def filtOp (p : Params) (back : Bool) (D x : List GRat) : List GRat :=
            else filterP p (gKerF My) (gKerF Mx) (gKerB My) (gKerB Mx) sc Ds (gratArr p.nx x)
   (List.range p.ny).flatMap fun iy => (List.range p.nx).map fun ix => r iy ix
 
+/-! ### the same pipeline on formal phase sums: any internal size
+
+`Fft.PSum` (`Model/FftIndex.lean`, the scalar type the C01 driver runs the FFT pipeline at): finite sums of
+`c·exp(2πi t)`, `c, t` rational, exact `+` and `·`.  The DFT kernels of *every* size are monomials, a Gaussian rational
+`a + b i` is `a + b·exp(2πi/4)`.  The driver op `filtp` runs `filterP` / `filterPBackward` at this scalar type;
+`filtp_*_denotes_complex_pipeline` (Properties) says its output evaluates to the complex pipeline of the theorems. -/
+
+def psumOfGRat (g : GRat) : Fft.PSum := Fft.PSum.ofRat g.re + Fft.PSum.ofRat g.im * Fft.PSum.turns (1 / 4)
+
+/-- complex conjugation of a formal phase sum: negate every phase -/
+def psumConj (a : Fft.PSum) : Fft.PSum := ⟨a.terms.map fun x => ⟨x.c, Fft.fracPart (-x.t), -x.r⟩⟩
+
+/-- forward / inverse DFT kernels `exp(∓2πi n/M)` as formal phases -/
+def pKerF (M : Nat) (n : Int) : Fft.PSum := Fft.PSum.turns (-((n : Rat) / (M : Rat)))
+def pKerB (M : Nat) (n : Int) : Fft.PSum := Fft.PSum.turns ((n : Rat) / (M : Rat))
+
+/-- What the driver op `filtp` computes (as `filtOp`, any internal size): one formal phase sum per output pixel. -/
+def filtOpP (p : Params) (back : Bool) (D x : List GRat) : List Fft.PSum :=
+  let My := my p
+  let Mx := mx p
+  let sc := Fft.PSum.ofRat (1 / ((My * Mx : Nat) : Rat))
+  let Ds := shiftD My Mx (fun a b => psumOfGRat (gratArr Mx D a b))
+  let xs := fun a b => psumOfGRat (gratArr p.nx x a b)
+  let r := if back then filterPBackward psumConj p (pKerF My) (pKerF Mx) (pKerB My) (pKerB Mx) sc Ds xs
+           else filterP p (pKerF My) (pKerF Mx) (pKerB My) (pKerB Mx) sc Ds xs
+  (List.range p.ny).flatMap fun iy => (List.range p.nx).map fun ix => r iy ix
+
 /-! ### One propagator object used repeatedly: the setters between calls
 
 `distance`, `num_oversampling`, `zero_padding`, `refractive_index` have setters that clear the instance
